@@ -448,7 +448,13 @@ pub fn generate(rng: &mut Rng) -> ResProgram {
                 vs, bv
             ));
             text.push_str(&format!("float4 {}(float2 i_uv : TEXCOORD) : SV_Target0\n{{\n{}    return float4(i_uv, 0, 1);\n}}\n\n", ps, bp));
-            text.push_str(&format!("Pipeline {}\n{{\n    VertexShader = {};\n    PixelShader = {};\n{}}}\n\n", pname, vs, ps, group));
+            // the stages may be written in any order
+            if cx.rng.chance(1, 2) {
+                text.push_str(&format!("Pipeline {}\n{{\n    PixelShader = {};\n{}    VertexShader = {};\n}}\n\n", pname, ps, group, vs));
+                features.push("pixel-stage-listed-first".into());
+            } else {
+                text.push_str(&format!("Pipeline {}\n{{\n    VertexShader = {};\n    PixelShader = {};\n{}}}\n\n", pname, vs, ps, group));
+            }
             features.push("graphics-pipeline".into());
         }
         pipelines.push(pname);
